@@ -135,6 +135,20 @@ def coq_make(timeout=3000, target=None):
     else:
         cmd.insert(3, "-k")
     r = subprocess.run(cmd, cwd=COQ, stdout=subprocess.PIPE, stderr=subprocess.STDOUT, text=True)
+    if r.returncode != 0 and target:
+        # several checks started at once on a tree that is not built yet compile the shared files concurrently and can
+        # trip over each other's half-written .vo files: repeat, serialised with the other checks' repeats
+        for _ in range(2):
+            time.sleep(5)
+            lock = open(os.path.join(COQ, "cases", ".make.retry.lock"), "w")
+            fcntl.flock(lock, fcntl.LOCK_EX)
+            try:
+                r = subprocess.run(cmd, cwd=COQ, stdout=subprocess.PIPE, stderr=subprocess.STDOUT, text=True)
+            finally:
+                fcntl.flock(lock, fcntl.LOCK_UN)
+                lock.close()
+            if r.returncode == 0:
+                break
     return r.returncode == 0, r.stdout, time.time() - t0
 
 
